@@ -1500,7 +1500,7 @@ func (h *Hub) processHelloInternal(client HandlerClient, message *ClientMessage)
 	h.processRegister(client, message, backend, auth)
 }
 
-func (h *Hub) disconnectByRoomSessionId(ctx context.Context, roomSessionId string, backend *Backend) {
+func (h *Hub) disconnectByRoomSessionId(ctx context.Context, roomSessionId string, backend *Backend, requester Session) {
 	sessionId, err := h.roomSessions.LookupSessionId(ctx, roomSessionId, "room_session_reconnected")
 	if err == ErrNoSuchRoomSession {
 		return
@@ -1531,6 +1531,12 @@ func (h *Hub) disconnectByRoomSessionId(ctx context.Context, roomSessionId strin
 	if session.Backend().Id() != backend.Id() {
 		// Room session ids are only unique per backend, the other session
 		// belongs to a different one.
+		return
+	}
+
+	if session == requester {
+		// The session joining a room keeps using its room session id, there
+		// is no other connection to disconnect.
 		return
 	}
 
@@ -1736,7 +1742,7 @@ func (h *Hub) processRoom(sess Session, message *ClientMessage) {
 			ctx, cancel := context.WithTimeout(session.Context(), time.Second)
 			defer cancel()
 
-			h.disconnectByRoomSessionId(ctx, message.Room.SessionId, session.Backend())
+			h.disconnectByRoomSessionId(ctx, message.Room.SessionId, session.Backend(), session)
 		}
 	}
 
